@@ -165,7 +165,7 @@ struct ReaderCfg { int n; bool delta[3]; };
 //   orphan: (sync gauge build only) no history: every Record overload on a gauge that was created from a
 //          meter whose MeterProvider is gone
 enum ReaderSet { ALL14 = 0, REP8 = 1, REP6 = 2, TWO5 = 3 };
-struct Part { int depth; bool rich; ReaderSet readers; bool both_starts; bool slim; bool ties; bool sec; bool orphan; bool view; };
+struct Part { int depth; bool rich; ReaderSet readers; bool both_starts; bool slim; bool ties; bool sec; bool orphan; bool view; bool cyc; };
 
 // Parts with `view`: the instrument is selected (by type and exact name) by a view that names the instrument type's own
 // aggregation EXPLICITLY - AggregationType::kSum for (observable) counters and up-down counters, kLastValue for gauges -
@@ -425,7 +425,11 @@ void run_observable(vf::Ctx &c) {
     // right after it is registered again.
     Op ops[24];
     int n = 0;
-    if (!last && sec) {
+    if (P.cyc) {
+      // appear / disappear cycles, deeper than the full alphabet reaches: one callback, its second attribute set switched on and
+      // off between collections ("several attribute sets appearing and disappearing"): only step / toggle / collect
+      if (!last) { ops[n++] = {OP_STEP, 0}; ops[n++] = {OP_TOGGLE, 0}; }
+    } else if (!last && sec) {
       if (registered[0]) ops[n++] = {OP_STEP, 0};
       if (registered[3]) ops[n++] = {OP_STEP, 3};
     } else if (!last) {
@@ -444,7 +448,8 @@ void run_observable(vf::Ctx &c) {
     for (int r = 0; r < R; ++r) ops[n++] = {OP_COLLECT, r};
     if (P.ties && ties_used < 2 && d > 0)
       for (int r = 0; r < R; ++r) ops[n++] = {OP_COLLECT_TIED, r};
-    if (!last && sec) {
+    if (P.cyc) {
+    } else if (!last && sec) {
       if (alive) { ops[n++] = {registered[0] ? OP_REMOVE : OP_ADD, 0}; ops[n++] = {OP_DESTROY, 0}; }
       if (alive2) { ops[n++] = {registered[3] ? OP_REMOVE : OP_ADD, 3}; ops[n++] = {OP_DESTROY, 1}; }
     } else if (!last && alive) {
@@ -769,7 +774,7 @@ void setup(vf::Options &o) {
   g_reader_sets[REP8] = {{1, {D}}, {1, {C}}, {2, {D, D}}, {2, {D, C}}, {2, {C, C}}, {3, {D, D, C}}, {3, {D, C, C}}, {3, {C, D, D}}};
   g_reader_sets[REP6] = {{1, {D}}, {1, {C}}, {2, {D, D}}, {2, {D, C}}, {3, {D, D, C}}, {3, {D, C, C}}};
   g_reader_sets[TWO5] = {{1, {D}}, {1, {C}}, {2, {D, D}}, {2, {D, C}}, {2, {C, C}}};
-  //                 depth rich  readers both   slim   ties   sec    orphan view
+  //                 depth rich  readers both   slim   ties   sec    orphan view   cyc
 #if OPENTELEMETRY_ABI_VERSION_NO >= 2
   if (o.thorough)
     g_parts = {{5, false, ALL14, false, false, false, false, false}, {6, false, TWO5, false, false, false, false, false}, {5, false, REP6, false, false, true, false, false},
@@ -781,12 +786,13 @@ void setup(vf::Options &o) {
     g_parts = {{5, true, ALL14, true, false, false, false, false}, {6, false, REP6, false, false, false, false, false}, {7, false, TWO5, false, true, false, false, false},
                {5, false, REP6, false, false, true, false, false}, {6, false, REP6, false, false, false, true, false}, {6, false, TWO5, false, false, false, false, false, true}};
   else g_parts = {{5, false, REP6, false, false, false, false, false}, {4, false, TWO5, false, false, true, false, false}, {4, false, TWO5, false, false, false, true, false},
-                  {4, false, TWO5, false, false, false, false, false, true}};
+                  {4, false, TWO5, false, false, false, false, false, true}, {6, false, TWO5, false, false, false, false, false, false, true}};
+  if (o.thorough) g_parts.push_back({8, false, REP6, false, false, false, false, false, false, true});
 #endif
   std::string d = o.get("depth");
   if (!d.empty())
     g_parts = {{atoi(d.c_str()), o.get("rich") == "1", (ReaderSet)atoi(o.get("readers", "1").c_str()), o.get("bothstarts") == "1", o.get("slim") == "1", o.get("ties") == "1",
-                o.get("sec") == "1", o.get("orphan") == "1", o.get("view") == "1"}};
+                o.get("sec") == "1", o.get("orphan") == "1", o.get("view") == "1", o.get("cyc") == "1"}};
 }
 
 void run(vf::Ctx &c) {
